@@ -181,7 +181,7 @@ static string load_isolated(int kind, const string& fn) {
     catch (std::exception& e) { res = string("error std_exception_") + slug(e.what()); }
     catch (...) { res = "error other_exception"; }
     full_write(p[1], res); close(p[1]);
-    _exit(0);
+    VH_EXIT(0);
   }
   close(p[1]);
   string out; char buf[4096]; ssize_t k;
